@@ -14,7 +14,7 @@ import time
 
 import numpy as np
 
-from harness.common import enc, Z, B, opt, to_zs, kids, tag
+from harness.common import enc, Z, B, to_zs, kids, tag
 
 PROP = 'C18'
 GENERATORS = []
@@ -46,11 +46,6 @@ ASSUMPTIONS = [
 
 
 # ====================================================================== real-side scaffolding
-def _glue():
-    import glue.core.application_base as ab
-    return ab
-
-
 _HAPP = None
 
 
@@ -417,7 +412,6 @@ def helper_problems(helper, where):
 def viewer_helper_problems(v, sess):
     """attribute pickers of the viewer state: exactly the attributes of the relevant datasets; image axes"""
     from glue.core.data_combo_helper import ComponentIDComboHelper, unique_data_iter
-    from glue.core import BaseData
     out = []
     st = v.state
     layer_datasets = unique_data_iter([ls.layer for ls in st.layers])
@@ -677,7 +671,6 @@ def resolve_symbols(prefix, syms):
         elif op[0] == 'rmgroup' and op[1] in live:
             live.remove(op[1])
             dead.append(op[1])
-    shown = set()
     for s in syms:
         if s in ('app0', 'app1'):
             ops.append(('append', int(s[-1])))
@@ -837,7 +830,7 @@ def stream_viewer_mpl(R, fixed):
     t0 = time.time()
     restorable = probe_restorable(all_kinds)
     R.note('viewer kinds that restore headlessly: %s' % restorable)
-    budget = R.pick(36.0, 200.0)
+    budget = R.pick(30.0, 170.0)
     batch = []
     i = 0
     while time.time() - t0 < budget and i < R.pick(80, 600):
@@ -1295,7 +1288,8 @@ def stream_picker(R):
                 ('dcremove', 0), ('delaybegin',), ('delayend',), ('psetmulti', [1, 0])]
     depth = 3
     for hasdc in (True, False):
-        for ln in range(1, depth + 1):
+        # without a data collection only the reaction to dc.remove differs: one level less in the quick tier
+        for ln in range(1, (depth if (hasdc or not R.quick()) else depth - 1) + 1):
             for seq in itertools.product(alphabet, repeat=ln):
                 ops = []
                 ok = True
@@ -1332,7 +1326,7 @@ def stream_picker(R):
                         stream='picker_exhaustive', history_len=len(ops))
     nexh = len(batch)
     # (ii) random long histories
-    nrand = R.pick(1500, 20000)
+    nrand = R.pick(1500, 12000)
     for i in range(nrand):
         rng = R.subrng('picker', i)
         spec = PICKER_SPECS[i % len(PICKER_SPECS)]
@@ -1358,7 +1352,7 @@ def stream_picker(R):
             nfail += 1
             report_picker(R, spec, flags, defidx, hasdc, ops, orac, corr)
     R.stream('picker', exhaustive_cases=nexh, random_cases=nrand, wall_s=round(time.time() - t0, 1),
-             bound='exhaustive: all sequences of length <= %d over %d ops (2 datasets, helper with and without data_collection); random: 5..20 ops over 3 dataset '
+             bound='exhaustive: all sequences of length <= %d over %d ops (2 datasets, helper with data_collection; without it one level less in the quick tier); random: 5..20 ops over 3 dataset '
                    'configurations (1-d/2-d, with/without coords, numerical/categorical/datetime), 7 filter flags, default_index in {0,1,-1,-2,5}, '
                    'hub delay blocks and echo delay blocks' % (depth, len(alphabet)))
 
@@ -1599,7 +1593,7 @@ def stream_image_axes(R):
         orac, impl, line = impl_axes(n, world, ops)
         batch.append((n, world, ops, orac, impl, line))
         R.count(('axes', n, world, tuple(ops)), nontrivial=True, stream=stream, ndim=n, history_len=len(ops))
-    depth = R.pick({2: 3, 3: 2, 4: 2}, {2: 4, 3: 3, 4: 2})
+    depth = R.pick({2: 3, 3: 2, 4: 2}, {2: 4, 3: 2, 4: 2})
     for world in (False, True):
         for n in (2, 3, 4):
             alpha = [(p, v) for p in ('x', 'y', 'xw', 'yw') for v in range(n)]
